@@ -103,8 +103,21 @@ def _sers():
     # serializer.py binds txaio.time_ns at import; without a selected framework that is a
     # raising stub.  It only feeds the statistics counters: own it (virtual clock = 0).
     S.time_ns = lambda: 0
+    # a differently configured serializer of the same process is used FIRST (and again before
+    # every job): nothing it does may leak into the standard serializers judged below.  It is a
+    # disturber only - its own output is not judged (the hex mode cannot carry strings that start
+    # with "0x", which is outside the property).
+    from autobahn.wamp import message as M
+    hexser = S.JsonSerializer(use_binary_hex_encoding=True)
+    for m_ in (M.Publish(1, "com.example.topic1", args=[b"\x00\x01\xfe\xff", {"k": b"\xff"}]),
+               M.Call(2, "com.example.proc1", payload=b"\x01\x02", enc_algo="cryptobox")):
+        try:
+            hexser.unserialize(hexser.serialize(m_)[0], False)
+        except Exception:
+            pass
     return {
         "json": S.JsonSerializer(), "json.batched": S.JsonSerializer(batched=True),
+
         "msgpack": S.MsgPackSerializer(), "msgpack.batched": S.MsgPackSerializer(batched=True),
         "cbor": S.CBORSerializer(), "cbor.batched": S.CBORSerializer(batched=True),
         "ubjson": S.UBJSONSerializer(), "ubjson.batched": S.UBJSONSerializer(batched=True),
